@@ -9,7 +9,7 @@ let table_text flags =
   String.concat "," (List.map (fun ((n, k), d) -> hex_of_bytes n ^ ":" ^ kind_name k ^ ":" ^ hex_of_bytes d) flags)
 let tables = Array.of_list c10_tables
 let () =
-  let cases = ref 0 and specfail = ref 0 and mismatch = ref 0 and drift = ref 0 and lenient = ref 0 in
+  let cases = ref 0 and specfail = ref 0 and mismatch = ref 0 and drift = ref 0 and lenient = ref 0 and chg_err = ref 0 and later_acc = ref 0 in
   let seen = Array.make (Array.length tables) false in
   iter_lines Sys.argv.(1) (fun line ->
     match split_ws line with
@@ -27,6 +27,8 @@ let () =
         let v = check_case (n_of_int (int_of_string isz)) tables.(i) (n_of_int (if mode = "P1" then 1 else 0)) (unchanged = "1") (toks_of vec) (n_of_int (int_of_string cls)) (bytes_of_hex detail)
                   (toks_of args) (help = "1") (toks_of fields) in
         if v.v_lenient then incr lenient;
+        if mode = "P1" && cls <> "0" && unchanged <> "1" then incr chg_err;
+        if mode = "P1" && cls = "0" then incr later_acc;
         if not (verdict_ok v) then begin
           incr specfail;
           Printf.printf "SPECFAIL %s class=%b args=%b help=%b fields=%b\n" line v.v_class v.v_args v.v_help v.v_fields end
@@ -34,4 +36,4 @@ let () =
           incr drift; Printf.printf "DRIFT %s\n" line end
         end
     | _ -> ());
-  Printf.printf "STATS cases=%d specfail=%d mismatch=%d drift=%d lenient=%d\n" !cases !specfail !mismatch !drift !lenient
+  Printf.printf "STATS cases=%d specfail=%d mismatch=%d drift=%d lenient=%d later_parse_accepted=%d fields_changed_on_error=%d\n" !cases !specfail !mismatch !drift !lenient !later_acc !chg_err
